@@ -365,12 +365,15 @@ func checkClosure(sc *bw.Scenario, w *world, cl *closure, res *vresult, out *sim
 				out.Violate("C08", "registry-meta", "source", fmt.Sprintf("variant %d: %s %s: registry named %s, bundle reports %q (found %v)", vi, rp.Addr, rv.V, rv.Source, src.String(), ok))
 			}
 			dep := b.RegistryPackageVersionDeprecation(pa, parseVersion(rv.V))
+			// (C17 names the deprecation note; for C08 it is registry metadata that must be retrievable unchanged)
 			if rv.DepReason == "" {
 				if dep != nil {
 					out.Violate("C17", "deprecation", "invented", fmt.Sprintf("variant %d: %s %s is not deprecated but the bundle records %+v", vi, rp.Addr, rv.V, *dep))
+					out.Violate("C08", "registry-meta", "deprecation", fmt.Sprintf("variant %d: %s %s is not deprecated but the bundle records %+v", vi, rp.Addr, rv.V, *dep))
 				}
 			} else if dep == nil || dep.Reason != rv.DepReason || dep.Link != rv.DepLink {
 				out.Violate("C17", "deprecation", "wrong", fmt.Sprintf("variant %d: %s %s deprecation %q/%q, bundle records %+v", vi, rp.Addr, rv.V, rv.DepReason, rv.DepLink, dep))
+				out.Violate("C08", "registry-meta", "deprecation", fmt.Sprintf("variant %d: %s %s deprecation %q/%q, bundle records %+v", vi, rp.Addr, rv.V, rv.DepReason, rv.DepLink, dep))
 			} else {
 				out.Probe("deprecation-recorded")
 			}
